@@ -14,21 +14,44 @@ def _h(name, loops=None, **kw):
     return d
 
 
+# mode="dfcc" here only selects the dfcc implementation of loop contracts (no
+# function contract is enforced): the classic --apply-loop-contracts pass of
+# cbmc 6.11 does not track every second of several consecutive loop-local
+# declarations, so the stub's write to the loop-local `diff` through *size is
+# reported as not assignable (tool bug, reproduced on a 5-line example).
+_FP_IN = {"get_buffered_data": "c12_in_get", "advance_buffer": "c12_in_advance",
+          "get_filename": "c12_in_filename"}
+
 HARNESSES = [
     _h("read_at", ["stdio_read_at"]),
     _h("write_at", ["stdio_write_at"]),
     _h("write_all", ["write_all"]),
     _h("precache", ["precache"], timeout=150),
-    _h("realize_sparse", ["realize_sparse", "write_all"], malloc_fail=True,
+    _h("get_buffered", ["precache"], timeout=150),
+    _h("advance"),
+    _h("api_read", ["sqfs_istream_read"], timeout=150, fp=_FP_IN, mode="dfcc"),
+    _h("api_skip", ["sqfs_istream_skip"], timeout=150, fp=_FP_IN, mode="dfcc"),
+    _h("api_splice", ["sqfs_istream_splice"], timeout=150, mode="dfcc",
+       fp=dict(_FP_IN, append="c12_out_append")),
+    _h("record", malloc_fail=True, flags=["--memory-leak-check"],
+       fp={"get_filename": "c12_in_filename"}),
+    dict(name="get_line", file="get_line.c", label="bounded(text<=5)",
+         flags=["--memory-leak-check"], timeout=600,
+         fp={"get_buffered_data": "c12_gl_get", "advance_buffer": "c12_gl_advance"},
+         cases=[dict(id="len%d" % n, defines={"LEN": n}, unwind=n + 3,
+                     tier="quick" if n <= 5 else "thorough",
+                     **({} if n <= 5 else {"label": "bounded(text<=8)"}))
+                for n in range(1, 9)]),
+    # write_all is replaced by its contract (proved by the write_all harness)
+    # in a pass of its own, before the loop-contract pass would inline it
+    _h("realize_sparse", ["realize_sparse"], malloc_fail=True,
        flags=["--memory-leak-check"],
-       instrument_flags=["--replace-calls", "write_all:c12_write_all_contract"]),
-    # loop-free after the two callees are replaced by their contracts; the
-    # loops= entry only makes the driver run goto-instrument (instrument_flags
-    # are ignored otherwise) - the rows annotate the now unreachable callee
-    _h("append", ["write_all"], loop_rows_reachable=0,
+       pre_instrument_flags=["--replace-calls", "write_all:c12_write_all_contract"]),
+    # loop-free once the two callees are replaced by their contracts
+    _h("append",
        instrument_flags=["--replace-calls", "write_all:c12_write_all_contract",
                          "--replace-calls", "realize_sparse:c12_realize_sparse_contract"]),
-    _h("flush", ["write_all"], loop_rows_reachable=0,
+    _h("flush",
        instrument_flags=["--replace-calls", "write_all:c12_write_all_contract",
                          "--replace-calls", "realize_sparse:c12_realize_sparse_contract"]),
 ]
